@@ -765,6 +765,9 @@ def call_pandas(it, fn, args, kwargs, node, fr):
         hdr = kwargs.get("header")
         if hdr is not None and is_pyconst(hdr) and pyval(hdr) is None:
             f.int_columns = True
+            f.order = list(range(12))
+            f.cols = {k_: sym(f"csv:{k_}") for k_ in f.order}
+            f.open = False
         names = kwargs.get("names")
         if names is not None and is_pyconst(names):
             f.order = list(pyval(names))
